@@ -133,6 +133,18 @@ class LLCase(object):
         self.form = ['arrays', 'lists'][int(rng.integers(2))]
         self.flat_single = bool(rng.integers(2))
         self._rng_fix = rng
+        # the user's model may arrive with sensitivities switched on - for
+        # all parameters or for a subset (the documented signature is
+        # enable_sensitivities(enabled, parameter_names))
+        self.pre_sens = None
+        u = rng.random()
+        if u < 0.15:
+            self.pre_sens = 'all'
+        elif u < 0.3:
+            mech = ['a%d' % (i + 1) for i in range(n)] + ['k', 'b']
+            k = int(rng.integers(1, len(mech)))
+            self.pre_sens = tuple(
+                mech[i] for i in sorted(rng.permutation(len(mech))[:k]))
 
     # ------------------------------------------------------------- build
     def full_names(self):
@@ -161,6 +173,10 @@ class LLCase(object):
             if self.mech_wrapper == 'reduced_released':
                 model.fix_parameters({'k': 0.3})
                 model.fix_parameters({'k': None})
+        if self.pre_sens == 'all':
+            model.enable_sensitivities(True)
+        elif self.pre_sens is not None:
+            model.enable_sensitivities(True, list(self.pre_sens))
         return model
 
     def build(self):
